@@ -1,4 +1,5 @@
-import Pyunicorn.Lemmas.VisibilityGeom
+import Pyunicorn.Lemmas.VisibilityExt
+import Pyunicorn.Generated.ArithC14
 /-!
 # C14 — visibility graphs realise the geometric visibility criterion
 
@@ -607,5 +608,353 @@ example : ∃ log, classLog exX (some exT) true false = .ok log ∧
   class_nvg_iff exX exT rfl
     (good_of_steps exX exT none 5 (by decide) (by decide) (by intro m h; cases h)
       (by decide +kernel)).inc
+
+/-! # Round 2
+
+## the adjacency matrix as state
+
+The kernels of `numerics.pyx` store into the caller's matrix inside their loops.
+`kernelNM` / `kernelHM` / `classMat` model exactly that (bounds-checked stores
+interleaved with the loop conditions); the theorems below show that the write log used
+by all statements above loses nothing. -/
+
+/-- **natural kernels on `np.zeros((N, N))`**: the final matrix is the matrix of the write
+log, and the kernel fails exactly when the log model fails, with the same error — for all
+arguments (no store is ever out of bounds). -/
+theorem nvg_matrix_is_log (x : List Val) (t : List Rat) (mv : Option (List Bool)) (N : Nat) :
+    kernelNM x t mv N (zeros N)
+      = (do let log ← kernelN x t mv N
+            .ok (adjMat N log)) :=
+  kernelNM_zeros x t mv N
+
+/-- **horizontal kernel on `np.zeros((N, N))`** -/
+theorem hvg_matrix_is_log (x : List Val) (N : Nat) :
+    kernelHM x N (zeros N)
+      = (do let log ← kernelH x N
+            .ok (adjMat N log)) :=
+  kernelHM_zeros x N
+
+/-- **`VisibilityGraph.__init__`**: the adjacency matrix built by the constructor
+(`np.zeros`, kernel, and for `horizontal, missing_values` the masked stores
+`A[mv, :] = 0; A[:, mv] = 0`) is the matrix of `classLog`, for all arguments. -/
+theorem class_matrix_is_log (x : List Val) (tm : Option (List Rat)) (missing horizontal : Bool) :
+    classMat x tm missing horizontal
+      = (do let log ← classLog x tm missing horizontal
+            .ok (adjMat x.length log)) := by
+  cases horizontal with
+  | false =>
+    simp only [classMat, classLog, Bool.not_false, if_true, kernelNM_zeros]
+    cases tm <;> rfl
+  | true =>
+    simp only [classMat, classLog, Bool.not_true, Bool.false_eq_true, if_false, kernelHM_zeros]
+    cases kernelH x x.length with
+    | error e => rfl
+    | ok log =>
+      cases missing with
+      | false => rfl
+      | true => simp only [bind_ok, if_true, zeroRC_adjMat]
+
+/-- **the adjacency matrix of `VisibilityGraph(x, timings=t, missing_values=True)`**:
+`A[a, b]` is set exactly when the earlier of the two samples sees the later one. -/
+theorem class_nvg_matrix_iff (x : List Val) (t : List Rat) (ht : t.length = x.length)
+    (inc : ∀ a b, a < b → b < x.length → tAt t a < tAt t b) :
+    ∃ A, classMat x (some t) true false = .ok A ∧
+      ∀ a b, a < x.length → b < x.length →
+        (Mat.at A a b = true ↔ (a < b ∧ NVisible x t a b) ∨ (b < a ∧ NVisible x t b a)) := by
+  obtain ⟨log, hlog, hmem⟩ := class_nvg_iff x t ht inc
+  refine ⟨adjMat x.length log, by rw [class_matrix_is_log, hlog]; rfl, ?_⟩
+  intro a b ha hb
+  rw [mat_adjMat _ _ a b ha hb, entry_iff, hmem, hmem]
+  constructor
+  · rintro (⟨h1, _, h3⟩ | ⟨h1, _, h3⟩)
+    · exact Or.inl ⟨h1, h3⟩
+    · exact Or.inr ⟨h1, h3⟩
+  · rintro (⟨h1, h3⟩ | ⟨h1, h3⟩)
+    · exact Or.inl ⟨h1, hb, h3⟩
+    · exact Or.inr ⟨h1, ha, h3⟩
+
+/-- **the adjacency matrix of `VisibilityGraph(x, horizontal=True, missing_values=True)`** -/
+theorem class_hvg_matrix_iff (x : List Val) (tm : Option (List Rat)) :
+    ∃ A, classMat x tm true true = .ok A ∧
+      ∀ a b, a < x.length → b < x.length →
+        (Mat.at A a b = true ↔ (a < b ∧ HVisible x a b) ∨ (b < a ∧ HVisible x b a)) := by
+  obtain ⟨log, hlog, hmem⟩ := hvg_missing_iff x tm
+  refine ⟨adjMat x.length log, by rw [class_matrix_is_log, hlog]; rfl, ?_⟩
+  intro a b ha hb
+  rw [mat_adjMat _ _ a b ha hb, entry_iff, hmem, hmem]
+  constructor
+  · rintro (⟨h1, _, h3⟩ | ⟨h1, _, h3⟩)
+    · exact Or.inl ⟨h1, h3⟩
+    · exact Or.inr ⟨h1, h3⟩
+  · rintro (⟨h1, h3⟩ | ⟨h1, h3⟩)
+    · exact Or.inl ⟨h1, hb, h3⟩
+    · exact Or.inr ⟨h1, ha, h3⟩
+
+example : classMat exX (some exT) true false
+    = .ok (adjMat 5 [(0, 1), (3, 4)]) := by decide +kernel
+
+/-! ## float32
+
+`kernelNR rnd` is the natural kernel with both differences and the quotient rounded by
+`rnd`, as the compiled code computes them in C `float`.  `Faithful rnd x t N` (decidable;
+evaluated by the driver on every series of the exact correspondence, and by
+`harness/c14.py:f32_exact` independently): seen from every left end `i`, a rounded divisor
+vanishes only if the exact one does and two rounded slopes compare like the exact ones. -/
+
+/-- **the float kernel is the exact kernel on order-faithful data**: same write log, or same
+error; any rounding function, any mask, any timings (also tied ones). -/
+theorem nvg_float32_eq_exact (rnd : Rat → Rat) (x : List Val) (t : List Rat)
+    (mv : Option (List Bool)) (N : Nat) (lx : N ≤ x.length) (lt : N ≤ t.length)
+    (hf : Faithful rnd x t N) : kernelNR rnd x t mv N = kernelN x t mv N :=
+  kernelNR_eq rnd x t mv N lx lt hf
+
+/-- hence the compiled natural kernel realises the geometric criterion on such data -/
+theorem nvg_float32_iff (rnd : Rat → Rat) (x : List Val) (t : List Rat) (N : Nat)
+    (g : Good x t (some (nanMask x)) N) (hf : Faithful rnd x t N) :
+    ∃ log, kernelNR rnd x t (some (nanMask x)) N = .ok log ∧
+      ∀ a b, (a, b) ∈ log ↔ a < b ∧ b < N ∧ NVisible x t a b := by
+  rw [kernelNR_eq rnd x t _ N g.lx g.lt hf]
+  exact nvg_mv_iff x t N g
+
+/-- without rounding the rounded kernel *is* the exact kernel (sanity of the model) -/
+theorem nvg_round_id (x : List Val) (t : List Rat) (mv : Option (List Bool)) (N : Nat)
+    (lx : N ≤ x.length) (lt : N ≤ t.length) : kernelNR id x t mv N = kernelN x t mv N := by
+  apply kernelNR_eq id x t mv N lx lt
+  intro i _ k _ j _ _ _
+  simp [faithfulAt, slopeValR, slopeValE]
+
+example : Faithful rndF32 exX exT 5 := by decide +kernel
+/-- the hypothesis is not void: slopes `2^24` and `2^24 + 1` collapse in float32, the
+float kernel does not link `0 – 2`, the exact one does -/
+example : ¬ Faithful rndF32 [some 0, some 16777216, some 33554434] [0, 1, 2] 3 := by
+  decide +kernel
+example : kernelNR rndF32 [some 0, some 16777216, some 33554434] [0, 1, 2] none 3
+    = .ok [(0, 1), (1, 2)] := by decide +kernel
+example : kernelN [some 0, some 16777216, some 33554434] [0, 1, 2] none 3
+    = .ok [(0, 2), (0, 1), (1, 2)] := by decide +kernel
+
+/-! ## time reversal exchanges the path-based and boundary-corrected measures -/
+
+theorem mirrored_adjMat (N : Nat) (log log' : List (Nat × Nat))
+    (hm : ∀ a b, a < N → b < N → entry log' a b = entry log (N - 1 - a) (N - 1 - b)) :
+    Mirrored N (adjMat N log) (adjMat N log') := by
+  intro i j hi hj
+  rw [mat_adjMat N log' i j hi hj, mat_adjMat N log _ _ (by omega) (by omega)]
+  exact hm i j hi hj
+
+/-- `path_lengths[0, :0].mean()` is the mean of an empty slice: NaN -/
+theorem retClose_zero (N : Nat) (A : List (List Bool)) : retClose N A 0 = none := by
+  simp [retClose, closeOf]
+
+theorem advClose_last (N : Nat) (A : List (List Bool)) (hN : 0 < N) :
+    advClose N A (N - 1) = none := by
+  have e : N - (N - 1 + 1) = 0 := by omega
+  simp [advClose, closeOf, e]
+
+/-- a path length `0` is the node itself: the sums in the closeness are positive -/
+theorem pathLen_zero_iff (N : Nat) (A : List (List Bool)) (i j : Nat) (hi : i < N) (hj : j < N) :
+    pathLen N A i j = some 0 ↔ j = i := by
+  have h0 : (lvl N A i 0).getD j false = (j == i) := by
+    simp only [lvl, lvl0]; exact getD_map_range N _ j hj
+  constructor
+  · intro h
+    have := List.find?_some h
+    rw [h0] at this
+    exact beq_iff_eq.mp this
+  · intro h
+    subst h
+    simp only [pathLen]
+    have hr : List.range N = 0 :: (List.range' 1 (N - 1)) := by
+      cases N with
+      | zero => omega
+      | succ n => rw [List.range_eq_range', List.range'_succ]; simp
+    rw [hr, List.find?_cons, h0]
+    simp
+
+/-- **retarded ↔ advanced closeness** under time reversal, for any two mirrored logs:
+`retarded_closeness` of the reversed series is the reversed `advanced_closeness` of the
+original one and vice versa (NaN at the first / last sample included). -/
+theorem reverse_exchanges_closeness (N : Nat) (log log' : List (Nat × Nat))
+    (hm : ∀ a b, a < N → b < N → entry log' a b = entry log (N - 1 - a) (N - 1 - b))
+    (a : Nat) (ha : a < N) :
+    retClose N (adjMat N log') a = advClose N (adjMat N log) (N - 1 - a) ∧
+    advClose N (adjMat N log') a = retClose N (adjMat N log) (N - 1 - a) :=
+  ⟨retClose_mirror N _ _ (mirrored_adjMat N log log' hm) a ha,
+   advClose_mirror N _ _ (mirrored_adjMat N log log' hm) a ha⟩
+
+theorem adjMat_length (N : Nat) (l : List (Nat × Nat)) : (adjMat N l).length = N := by
+  simp [adjMat]
+
+/-- **`boundary_corrected_degree`** of the reversed series is the reversed array -/
+theorem reverse_mirrors_boundary_corrected_degree (N : Nat) (log log' : List (Nat × Nat))
+    (hm : ∀ a b, a < N → b < N → entry log' a b = entry log (N - 1 - a) (N - 1 - b))
+    (hlt : ∀ a b, (a, b) ∈ log → a < b) (hlt' : ∀ a b, (a, b) ∈ log' → a < b) :
+    bcDegree (adjMat N log') = (bcDegree (adjMat N log)).reverse := by
+  simp only [bcDegree, adjMat_length]
+  rw [← map_range_rev]
+  apply List.map_congr_left
+  intro a ha
+  rw [List.mem_range] at ha
+  obtain ⟨h1, h2⟩ := reverse_exchanges_degrees N log log' hm hlt hlt' a ha
+  have e : N - 1 - (N - 1 - a) = a := by omega
+  rw [h1, h2, e, add_comm]
+
+theorem vadd_comm (a b : Option Rat) : vadd a b = vadd b a := by
+  cases a <;> cases b <;> simp [vadd, add_comm]
+
+/-- **`boundary_corrected_closeness`** of the reversed series is the reversed array -/
+theorem reverse_mirrors_boundary_corrected_closeness (N : Nat) (log log' : List (Nat × Nat))
+    (hm : ∀ a b, a < N → b < N → entry log' a b = entry log (N - 1 - a) (N - 1 - b)) :
+    bcCloseness (adjMat N log') = (bcCloseness (adjMat N log)).reverse := by
+  simp only [bcCloseness, adjMat_length]
+  rw [← map_range_rev]
+  apply List.map_congr_left
+  intro a ha
+  rw [List.mem_range] at ha
+  obtain ⟨h1, h2⟩ := reverse_exchanges_closeness N log log' hm a ha
+  have e : N - 1 - (N - 1 - a) = a := by omega
+  rw [h1, h2, e, vadd_comm]
+
+/-! ## time reversal, composed for the class -/
+
+/-- **`VisibilityGraph(x, t, missing_values=True)` and the time-reversed series**
+(`x` read backwards at times `c - t`): neither constructor fails, the adjacency matrices are
+mirror images, and every retarded measure of one is the advanced measure of the other —
+degree, local clustering, closeness — while the boundary-corrected degree and closeness are
+mirrored. -/
+theorem class_reverse_exchanges_nvg (x : List Val) (t : List Rat) (c : Rat)
+    (ht : t.length = x.length) (inc : ∀ a b, a < b → b < x.length → tAt t a < tAt t b) :
+    ∃ log log', classLog x (some t) true false = .ok log ∧
+      classLog x.reverse (some (revT c t)) true false = .ok log' ∧
+      let N := x.length
+      let A := adjMat N log
+      let A' := adjMat N log'
+      (∀ a b, a < N → b < N → Mat.at A' a b = Mat.at A (N - 1 - a) (N - 1 - b)) ∧
+      (∀ a, a < N → retDeg A' a = advDeg A (N - 1 - a) ∧ advDeg A' a = retDeg A (N - 1 - a)) ∧
+      retClust A' = (advClust A).reverse ∧ advClust A' = (retClust A).reverse ∧
+      (∀ a, a < N → retClose N A' a = advClose N A (N - 1 - a) ∧
+        advClose N A' a = retClose N A (N - 1 - a)) ∧
+      bcDegree A' = (bcDegree A).reverse ∧ bcCloseness A' = (bcCloseness A).reverse := by
+  have g : Good x t (some (nanMask x)) x.length :=
+    ⟨Nat.le_refl _, by omega, by intro m hm; cases hm; simp [nanMask], inc⟩
+  obtain ⟨log, log', h1, h2, hm⟩ := reverse_mirrors_nvg_mv x t c x.length rfl ht g
+  have g' : Good x.reverse (revT c t) (some (nanMask x.reverse)) x.length :=
+    good_reverse x t c x.length _ _ rfl ht g (by intro m hm; cases hm; simp [nanMask])
+  have hlt : ∀ a b, (a, b) ∈ log → a < b := fun a b h =>
+    (kernelN_log_lt x t _ _ g log h1 a b h).1
+  have hlt' : ∀ a b, (a, b) ∈ log' → a < b := fun a b h =>
+    (kernelN_log_lt _ _ _ _ g' log' h2 a b h).1
+  refine ⟨log, log', by rw [class_nvg_missing]; exact h1,
+    by rw [class_nvg_missing, List.length_reverse]; exact h2, ?_⟩
+  exact ⟨mirrored_adjMat _ log log' hm,
+    fun a ha => reverse_exchanges_degrees _ log log' hm hlt hlt' a ha,
+    (reverse_exchanges_clustering _ log log' hm hlt hlt').1,
+    (reverse_exchanges_clustering _ log log' hm hlt hlt').2,
+    fun a ha => reverse_exchanges_closeness _ log log' hm a ha,
+    reverse_mirrors_boundary_corrected_degree _ log log' hm hlt hlt',
+    reverse_mirrors_boundary_corrected_closeness _ log log' hm⟩
+
+theorem classLog_hvg_lt (x : List Val) (tm : Option (List Rat)) (log : List (Nat × Nat))
+    (h : classLog x tm true true = .ok log) (a b : Nat) (hab : (a, b) ∈ log) : a < b := by
+  obtain ⟨log', h', hmem⟩ := hvg_missing_iff x tm
+  rw [h] at h'
+  cases h'
+  exact ((hmem a b).mp hab).1
+
+/-- **the same for `VisibilityGraph(x, horizontal=True, missing_values=True)`**, any series,
+any timings -/
+theorem class_reverse_exchanges_hvg (x : List Val) (tm tm' : Option (List Rat)) :
+    ∃ log log', classLog x tm true true = .ok log ∧
+      classLog x.reverse tm' true true = .ok log' ∧
+      let N := x.length
+      let A := adjMat N log
+      let A' := adjMat N log'
+      (∀ a b, a < N → b < N → Mat.at A' a b = Mat.at A (N - 1 - a) (N - 1 - b)) ∧
+      (∀ a, a < N → retDeg A' a = advDeg A (N - 1 - a) ∧ advDeg A' a = retDeg A (N - 1 - a)) ∧
+      retClust A' = (advClust A).reverse ∧ advClust A' = (retClust A).reverse ∧
+      (∀ a, a < N → retClose N A' a = advClose N A (N - 1 - a) ∧
+        advClose N A' a = retClose N A (N - 1 - a)) ∧
+      bcDegree A' = (bcDegree A).reverse ∧ bcCloseness A' = (bcCloseness A).reverse := by
+  obtain ⟨log, log', h1, h2, hm⟩ := reverse_mirrors_hvg x tm tm'
+  have hlt := classLog_hvg_lt x tm log h1
+  have hlt' := classLog_hvg_lt x.reverse tm' log' h2
+  refine ⟨log, log', h1, h2, ?_⟩
+  exact ⟨mirrored_adjMat _ log log' hm,
+    fun a ha => reverse_exchanges_degrees _ log log' hm hlt hlt' a ha,
+    (reverse_exchanges_clustering _ log log' hm hlt hlt').1,
+    (reverse_exchanges_clustering _ log log' hm hlt hlt').2,
+    fun a ha => reverse_exchanges_closeness _ log log' hm a ha,
+    reverse_mirrors_boundary_corrected_degree _ log log' hm hlt hlt',
+    reverse_mirrors_boundary_corrected_closeness _ log log' hm⟩
+
+/-- **natural graph without missing-value treatment, any series** (NaN allowed): what the
+code computes (`nvg_nomask_general`: far pairs by the criterion, consecutive samples always
+linked) is still mirrored by time reversal — finding C14-F1 does not break the mirror clause. -/
+theorem reverse_mirrors_nvg_nomask_general (x : List Val) (t : List Rat) (c : Rat) (N : Nat)
+    (hx : x.length = N) (ht : t.length = N) (g : Good x t none N) :
+    ∃ log log', kernelN x t none N = .ok log ∧
+      kernelN x.reverse (revT c t) none N = .ok log' ∧
+      ∀ a b, a < N → b < N → entry log' a b = entry log (N - 1 - a) (N - 1 - b) := by
+  obtain ⟨log, hlog, hmem⟩ := nvg_nomask_general x t N g
+  have g' : Good x.reverse (revT c t) none N :=
+    good_reverse x t c N _ _ hx ht g (by intro m hm; cases hm)
+  obtain ⟨log', hlog', hmem'⟩ := nvg_nomask_general x.reverse (revT c t) N g'
+  refine ⟨log, log', hlog, hlog', mirror_of_iff N log log' _ _ hmem hmem' ?_⟩
+  intro a b hab hb
+  have := nvisible_reverse x t c N a b hx ht hab hb (g.inc a b hab hb)
+  constructor
+  · rintro (h | h)
+    · exact Or.inl (by omega)
+    · exact Or.inr (this.mp h)
+  · rintro (h | h)
+    · exact Or.inl (by omega)
+    · exact Or.inr (this.mpr h)
+
+/-- closeness of the path `0 – 1 – 2 – 3`; node 3 of the second graph is isolated -/
+example : (List.range 4).map (retClose 4 (adjMat 4 [(0, 1), (1, 2), (2, 3)]))
+    = [none, some 1, some (2 / 3), some (1 / 2)] := by decide +kernel
+example : (List.range 4).map (advClose 4 (adjMat 4 [(0, 1), (1, 2)]))
+    = [some 0, some 0, some 0, none] := by decide +kernel
+
+/-! ## what `pathLen` (the specification of `Network.path_lengths`) means -/
+
+/-- **`pathLen` is the least number of links of a walk** between two nodes: `some d` — a walk
+of `d` links exists and none with fewer; `none` (`inf`) — no walk with fewer than `N` links. -/
+theorem path_lengths_are_least_walk_lengths (N : Nat) (A : List (List Bool)) (i j : Nat)
+    (hi : i < N) (hj : j < N) :
+    (∀ d, pathLen N A i j = some d →
+      d < N ∧ ReachLe N A i j d ∧ ∀ k, k < d → ¬ ReachLe N A i j k) ∧
+    (pathLen N A i j = none → ∀ k, k < N → ¬ ReachLe N A i j k) :=
+  pathLen_spec N A i j hi hj
+
+example : ReachLe 4 (adjMat 4 [(0, 1), (1, 2)]) 0 2 2 :=
+  .step 1 2 1 (.step 0 1 0 (.here 0 (by decide)) (by decide) (by decide +kernel)) (by decide)
+    (by decide +kernel)
+
+/-! ## slice bounds and normalisations regenerated from `visibility_graph.py`
+
+`translate/arith_C14.json` → `Pyunicorn.Generated.ArithC14` (rewritten from the current
+source on every run): the bounds of `A[i, :i]`, `A[i, i:]`, `path_lengths[i, :i]`,
+`path_lengths[i, i+1:]`, `float(self.N - 1)` and both `norm = d * (d - 1) / 2.`.  The
+theorem states that the model's measures are built with exactly these expressions. -/
+
+theorem model_uses_source_expressions (N : Nat) (A : List (List Bool)) (i d : Nat) :
+    retDeg A i = ((A.getD i []).take (Generated.ArithC14.retDegSliceStop (i : Int)).toNat).count true ∧
+    advDeg A i = ((A.getD i []).drop (Generated.ArithC14.advDegSliceStart (i : Int)).toNat).count true ∧
+    retClose N A i
+      = closeOf ((List.range (Generated.ArithC14.retSliceStop (i : Int)).toNat).map (pathLen N A i)) ∧
+    advClose N A i
+      = closeOf ((List.range' (Generated.ArithC14.advSliceStart (i : Int)).toNat
+          (N - (Generated.ArithC14.advSliceStart (i : Int)).toNat)).map (pathLen N A i)) ∧
+    pairNorm d = Generated.ArithC14.retNorm (d : Rat) ∧ pairNorm d = Generated.ArithC14.advNorm (d : Rat) ∧
+    (1 ≤ N → (((N - 1 : Nat) : Int) : Rat) = ((Generated.ArithC14.bcDen (N : Int) : Int) : Rat)) := by
+  have e : ((i : Int) + 1).toNat = i + 1 := by omega
+  refine ⟨by simp [retDeg, Generated.ArithC14.retDegSliceStop], by simp [advDeg, Generated.ArithC14.advDegSliceStart],
+    by simp [retClose, Generated.ArithC14.retSliceStop], by simp [advClose, Generated.ArithC14.advSliceStart, e],
+    by simp [pairNorm, Generated.ArithC14.retNorm], by simp [pairNorm, Generated.ArithC14.advNorm], ?_⟩
+  intro h
+  simp only [Generated.ArithC14.bcDen]
+  congr 1
+  omega
 
 end Pyunicorn.Visibility
